@@ -16,7 +16,7 @@ func init() {
 	register(&propDef{
 		id: "C04",
 		meta: propMeta{
-			explanation: "Decides the structural clauses of 'the routing table mirrors what each node advertises': (R1) fully decides the lookup sentence - every `return node, true` of State.LookupEndpoint carries the facts node.ID != localID, node.Status == active, Endpoints[param] present and > 0, and returns a copy of that node; (R2) the gossip key schema agrees between the publishing side and the watcher side (same constants, Itoa/Atoi); (R3) every watcher method of the syncer reaches its cluster.State mutator with the matching constant on every path except those carrying an allowed skip fact (local id, non-endpoint key, unparsable count), and handles the pending node when the mutator reports the node is not in the table; (R4) a pending node is promoted only when both addresses are known, after being removed from pending, and keeps a non-active status recorded while pending; (R5) the owner publishes count>0 as upsert else delete (same rule as C05.R3); (R6) the remote mutators of cluster.State refuse the local id. Deletes learnt only through compaction are C14. Not decided: equality of table and advertisement over all delivery histories.",
+			explanation: "Decides the structural clauses of 'the routing table mirrors what each node advertises': (R1) fully decides the lookup sentence - every `return node, true` of State.LookupEndpoint carries the facts node.ID != localID, node.Status == active, Endpoints[param] present and > 0, and returns a copy of that node; (R2) the gossip key schema agrees between the publishing side and the watcher side (same constants, Itoa/Atoi); (R3) every watcher method of the syncer reaches its cluster.State mutator with the matching constant on every path except those carrying an allowed skip fact (local id, non-endpoint key, unparsable count), and handles the pending node when the mutator reports the node is not in the table; (R4) a pending node is promoted only when both addresses are known, after being removed from pending, and keeps a non-active status recorded while pending; (R5) the owner publishes count>0 as upsert else delete (same rule as C05.R3); (R6) the remote mutators of cluster.State refuse the local id. Deletes learnt only through compaction are C14. Not decided: equality of table and advertisement over all delivery histories. Second round: (R10) the routing-table mutators report success only after their write (in the mutator or the locked helper it tests) and AddNode stores under the node's own id; (R11) State loops complete; (R12) OnJoin records a pending node exactly for unknown remote nodes and pending nodes record their addresses.",
 			ruleText:    "obligation = one return / call site / path class / constant; distinct = distinct keys",
 			assumptions: []string{"gossip delivers every visible key change as a watcher notification (C14)"},
 		},
